@@ -126,6 +126,7 @@ impl Prop for C05 {
             controllers: 1,
             tree,
             plain488: false,
+            no_mav: false,
         };
         let mut t = base_trace("C05", seed, run, "enumeration", cfg.clone());
         let tc = TreeCtx::new(&cfg.tree);
